@@ -117,6 +117,26 @@ class Interp:
             out = self.join(out, r)
         return out
 
+    def _module_constant(self, fi, name):
+        """defining expression of a module-level name bound exactly once to a literal / arithmetic on literals"""
+        if fi is None:
+            return None
+        cache = self.__dict__.setdefault("_mc", {})
+        key = fi.module.name
+        if key not in cache:
+            seen, vals = {}, {}
+            for st in fi.module.tree.body:
+                if isinstance(st, ast.Assign) and len(st.targets) == 1 and isinstance(st.targets[0], ast.Name):
+                    seen[st.targets[0].id] = seen.get(st.targets[0].id, 0) + 1
+                    vals[st.targets[0].id] = st.value
+            ok = {}
+            for k, v in vals.items():
+                if seen[k] == 1 and all(isinstance(n, (ast.Constant, ast.BinOp, ast.UnaryOp, ast.operator, ast.unaryop, ast.Name,
+                                                       ast.Load, ast.Tuple)) for n in ast.walk(v)):
+                    ok[k] = v
+            cache[key] = ok
+        return cache[key].get(name)
+
     def join(self, a, b):
         if isinstance(a, Seq) and isinstance(b, Seq) and len(a) == len(b):
             return Seq(self.join(x, y) for x, y in zip(a, b))
@@ -224,7 +244,14 @@ class Interp:
         if isinstance(e, ast.Constant):
             return d.const(e.value)
         if isinstance(e, ast.Name):
-            return env.get(e.id, d.unknown())
+            if e.id in env:
+                return env[e.id]
+            mc = self._module_constant(env.get("@fi"), e.id)
+            if mc is not None:
+                return self.ev(mc, {"@fi": env.get("@fi"), "@depth": env.get("@depth", 0)})
+            if hasattr(d, "global_name"):
+                return d.global_name(e.id)
+            return d.unknown()
         if isinstance(e, (ast.Tuple, ast.List)):
             return Seq(self.ev(x, env) for x in e.elts)
         if isinstance(e, (ast.GeneratorExp, ast.ListComp)):
@@ -517,6 +544,9 @@ class TermDomain(Domain):
     def self_attr(self, attr, node):
         return ("self", attr)
 
+    def global_name(self, name):
+        return ("g", name)                  # a module / builtin / imported name that is not a local
+
     def subscript(self, recv, index, node):
         if isinstance(index, (int, str)) and not isinstance(index, bool):
             index = ("c", index)
@@ -589,3 +619,50 @@ def term_to_nf(t, atom):
     if isinstance(t, tuple) and len(t) == 3 and t[0] == "u" and t[1] == "usub":
         return RF.const(0) - term_to_nf(t[2], atom)
     raise NFUnsupported("term %r" % (t,))
+
+
+def term_to_ast(t):
+    """python expression for an arithmetic / selection term (inverse of TermDomain for the forms rules feed to the normal-form
+    translator): where, comparisons, +-*/**, constants, parameters, self attributes, attributes, plain calls"""
+    if isinstance(t, Seq):
+        return ast.Tuple(elts=[term_to_ast(x) for x in t], ctx=ast.Load())
+    if not isinstance(t, tuple) or not t:
+        raise ValueError("term %r" % (t,))
+    h = t[0]
+    if h == "c":
+        return ast.Constant(value=t[1])
+    if h in ("p", "g"):
+        return ast.Name(id=t[1], ctx=ast.Load())
+    if h == "self":
+        return ast.Attribute(value=ast.Name(id="self", ctx=ast.Load()), attr=t[1], ctx=ast.Load())
+    if h == "attr":
+        return ast.Attribute(value=term_to_ast(t[1]), attr=t[2], ctx=ast.Load())
+    if h == "op":
+        ops = {v: k for k, v in OP_NAMES.items()}
+        return ast.BinOp(left=term_to_ast(t[2]), op=ops[t[1]](), right=term_to_ast(t[3]))
+    if h == "u" and t[1] == "usub":
+        return ast.UnaryOp(op=ast.USub(), operand=term_to_ast(t[2]))
+    if h == "u" and t[1] == "not":
+        return ast.UnaryOp(op=ast.Not(), operand=term_to_ast(t[2]))
+    if h == "cmp":
+        ops = {"lt": ast.Lt, "le": ast.LtE, "eq": ast.Eq, "ne": ast.NotEq}
+        if t[1] in ops:
+            return ast.Compare(left=term_to_ast(t[2]), ops=[ops[t[1]]()], comparators=[term_to_ast(t[3])])
+    if h == "cmp" and t[1] in ("is", "isnot", "in", "notin"):
+        ops = {"is": ast.Is, "isnot": ast.IsNot, "in": ast.In, "notin": ast.NotIn}
+        return ast.Compare(left=term_to_ast(t[2]), ops=[ops[t[1]]()], comparators=[term_to_ast(t[3])])
+    if h == "ite":
+        return ast.IfExp(test=term_to_ast(t[1]), body=term_to_ast(t[2]), orelse=term_to_ast(t[3]))
+    if h == "where":
+        return ast.Call(func=ast.Attribute(value=ast.Name(id="np", ctx=ast.Load()), attr="where", ctx=ast.Load()),
+                        args=[term_to_ast(t[1]), term_to_ast(t[2]), term_to_ast(t[3])], keywords=[])
+    if h == "call" and isinstance(t[1], str) and t[1]:
+        fn = ast.parse(t[1], mode="eval").body
+        return ast.Call(func=fn, args=[term_to_ast(x) for x in t[2]],
+                        keywords=[ast.keyword(arg=k, value=term_to_ast(v)) for k, v in t[3]])
+    if h == "m":
+        return ast.Call(func=ast.Attribute(value=term_to_ast(t[1]), attr=t[2], ctx=ast.Load()), args=[term_to_ast(x) for x in t[3]],
+                        keywords=[ast.keyword(arg=k, value=term_to_ast(v)) for k, v in t[4]])
+    if h == "at":
+        return ast.Subscript(value=term_to_ast(t[1]), slice=term_to_ast(t[2]), ctx=ast.Load())
+    raise ValueError("term %r cannot be written back as an expression" % (t[:2],))
